@@ -2,7 +2,7 @@
    `orc` is the blob oracle (vellum / roaring / snappy decoding done by the harness co-process). *)
 From Coq Require Import List NArith ZArith Bool.
 Import ListNotations.
-Require Import Sx Bytes Kernel Footer Ref Spec Wire Layout SpecMerge Iter Iter1 Automata Dict Pool BuildReuse IO Cancel VecSpec VecCache VecFault.
+Require Import Sx Bytes Kernel Footer Ref Spec Wire Layout SpecMerge Iter Iter1 Automata Dict Pool BuildReuse IO Cancel VecSpec VecCache VecFault Enum.
 Open Scope N_scope.
 
 (* ---- C20: (1 ops) with op 0 = AddRef, 1 = DecRef/Close ---- *)
@@ -355,6 +355,19 @@ Definition h_vecfault (args : list sx) : sx :=
   | _ => sxerr 152
   end.
 
+(* ---- C06/C13: (20 ((key val)...)...) -> ((key idx val)...): the merge enumerator ---- *)
+Definition h_enum (args : list sx) : sx :=
+  match args with
+  | [L lists] =>
+      match mapo (fun l => match l with
+                           | L es => mapo (fun e => match e with L [B k; A v] => Some (k, v) | _ => None end) es
+                           | _ => None end) lists with
+      | Some its => L (map (fun t => match t with (k, i, v) => L [B k; A (N.of_nat i); A v] end) (Enum.enumerate its))
+      | None => sxerr 20
+      end
+  | _ => sxerr 20
+  end.
+
 Definition handle (orc : sx -> sx) (req : sx) : sx :=
   match req with
   | L (A k :: args) =>
@@ -374,6 +387,7 @@ Definition handle (orc : sx -> sx) (req : sx) : sx :=
       else if k =? 12 then h_veccache args
       else if k =? 15 then h_vecfault args
       else if k =? 18 then h_reuse args
+      else if k =? 20 then h_enum args
       else sxerr 0
   | _ => sxerr 0
   end.
